@@ -135,6 +135,30 @@ func (l *Loader) resolveShort(name, from string) *types.Package {
 	return nil
 }
 
+// lookupFunc finds a package-level function. A package reached only through the export data of an INDIRECT import is
+// a stub whose scope holds just the objects its importers mention; the fully loaded package of the same path (loaded
+// on demand) is consulted then. Contracts are keyed by funcKey (a string), so the two objects denote the same function.
+func (l *Loader) lookupFunc(p *types.Package, name string) (*types.Func, bool) {
+	if fn, ok := p.Scope().Lookup(name).(*types.Func); ok {
+		return fn, true
+	}
+	if q := l.byPath[p.Path()]; q != nil && q != p {
+		if fn, ok := q.Scope().Lookup(name).(*types.Func); ok {
+			return fn, true
+		}
+	}
+	if _, loaded := l.pkgs[p.Path()]; !loaded {
+		if err := l.Load(p.Path()); err == nil {
+			if q := l.pkgs[p.Path()]; q != nil && q.Types != nil {
+				if fn, ok := q.Types.Scope().Lookup(name).(*types.Func); ok {
+					return fn, true
+				}
+			}
+		}
+	}
+	return nil, false
+}
+
 func (l *Loader) index(p *types.Package) {
 	if p == nil || l.byPath[p.Path()] != nil {
 		return
